@@ -1,6 +1,7 @@
 """C14 - performed notes sound until release or later, exactly as the pedal dictates.
 
-Bounded-exhaustive enumeration of note lists x control streams x thresholds x (ppq, mpq), of
+Bounded-exhaustive enumeration of note lists x control streams x thresholds x (ppq, mpq), of the numeric
+types in which the times and controller values are handed over (Python / numpy integers and floats), of
 threshold-assignment histories, of edit-then-query-again sequences on one part (in-place edits of the
 notes / resolution / threshold with note_array() after every step, `mc/c14_edits.py`), and of track
 layouts of multi-part performances.  The real
@@ -16,7 +17,8 @@ from mc import c14_edits as E
 
 PID = "C14"
 RULE = (
-    "every case is one (note list, control stream, ppq/mpq, tick-key flag) or one track layout, distinct by "
+    "every case is one (note list, control stream, ppq/mpq, tick-key flag[, numeric types of the note times / control "
+    "times / controller values]) or one track layout, distinct by "
     "construction (ordered products over the stated alphabets); the property is evaluated for every threshold "
     "of the case's threshold set on a freshly built part and after every assignment of a threshold walk/history; "
     "non-trivial = at least one note and one sustain-pedal event (pedal spaces) or two parts (track space); "
@@ -44,6 +46,10 @@ ASSUMPTIONS = [
     "control times it leaves in the part are read back (exactly) as the new reference state, the helper itself is not judged; "
     "it is not applied to parts with note_on_tick/note_off_tick keys (it leaves those keys unshifted on the present tree: "
     "reported with proposed_fixes/C14-s-remove-silence-tick-keys.diff; switch mc/c14_edits.SILENCE_WITH_TICK_KEYS)",
+    "numeric-types: note_on/note_off, control times and controller values may be given as any real number type that holds "
+    "the value (Python int/float, numpy integer and floating scalars): the statement quantifies over the notes and times, "
+    "not over their representation; sound_off and the note array are read with float() and compared with the same "
+    "reference as for Python floats",
     "mido/numpy are trusted",
 ]
 CHUNK = 40
@@ -217,6 +223,76 @@ def na_cases(tier):
     return out
 
 
+NT_HOMOG = ["float", "int", "np.int64", "np.int32", "np.float64", "np.float32"]
+NT_ONOFF = ["on-int/off-float", "on-float/off-int"]
+NT_ALT = ["even-int/odd-float", "even-float/odd-int"]
+CT_TYPES = ["float", "int", "np.int64", "np.float64", "np.float32"]
+VT_TYPES = ["int", "np.int64", "float"]
+GH4 = [0, H(1), 1, 2]
+GH5 = [0, H(1), 1, H(3), 2]
+
+
+def typed_note_lists(scheme):
+    """1-2 notes [pitch, channel, on, off] (pitch patterns 60 / 60,60 / 60,61) whose times the scheme's types hold
+    exactly: integer-typed fields over {0,1,2}, float fields of the mixed on/off schemes over {0,.5,1,1.5,2}, the
+    numpy float types over {0,.5,1,2}, Python float over {0,1,2}"""
+    if scheme in ("np.float64", "np.float32"):
+        ons, offs = GH4, GH4
+    elif scheme == "on-int/off-float":
+        ons, offs = G3, GH5
+    elif scheme == "on-float/off-int":
+        ons, offs = GH5, G3
+    else:
+        ons, offs = G3, G3
+    iv = [(a, b) for a in ons for b in offs if a <= b]
+    out = []
+    if scheme not in NT_ALT:  # with one note these two are the homogeneous int / float schemes
+        out += [[[60, 0, fs(a), fs(b)]] for a, b in iv]
+    for pp in ((60, 60), (60, 61)):
+        for (a, b), (c, d) in product(iv, repeat=2):
+            out.append([[pp[0], 0, fs(a), fs(b)], [pp[1], 1, fs(c), fs(d)]])
+    return out
+
+
+TYPE_SCHEMES = NT_HOMOG + NT_ONOFF + NT_ALT
+CTVT = [(ct, vt) for ct in CT_TYPES for vt in VT_TYPES]
+TYPE_KW = dict(thr=[0, 64, 127], walk="updown", pq=PQ[0], ticks=0)
+TYPE_BLOCKS = 16
+
+
+def type_cases(tier, seed):
+    """every note-type scheme x its note lists x control streams; control-time / pedal-value types cycled"""
+    css = control_streams(2, [H(1), 1, H(3), H(5)], K4[:3])
+    k = 0
+    for scheme in TYPE_SCHEMES:
+        for ni, nl in enumerate(typed_note_lists(scheme)):
+            for ci, cs in enumerate(css):
+                k += 1
+                if tier != "thorough" and (ni + ci) % TYPE_BLOCKS != seed % TYPE_BLOCKS:
+                    continue
+                c = pedal_case(nl, cs, k, **TYPE_KW)
+                c["types"] = [scheme] + list(CTVT[k % len(CTVT)])
+                yield c
+
+
+def type_triple_cases(tier, seed):
+    """every (note scheme, control-time type, pedal-value type) triple on a small core of parts"""
+    iv3 = [(0, 1), (1, 2), (0, 2)]
+    core = [[[60, 0, fs(a), fs(b)]] for a, b in intervals(G3)]
+    core += [[[60, 0, fs(a), fs(b)], [60, 1, fs(c), fs(d)]] for (a, b), (c, d) in product(iv3, repeat=2)]
+    css = control_streams(2, [H(1), 1, 2, H(5)], [[64, 127], [64, 0]])
+    for scheme in TYPE_SCHEMES:
+        nls = [nl for nl in core if len(nl) == 2 or scheme not in NT_ALT]
+        for ti, (ct, vt) in enumerate(CTVT):
+            for ni, nl in enumerate(nls):
+                for ci, cs in enumerate(css):
+                    if tier != "thorough" and (ti + ni + ci) % TYPE_BLOCKS != seed % TYPE_BLOCKS:
+                        continue
+                    c = pedal_case(nl, cs, 0, **TYPE_KW)
+                    c["types"] = [scheme, ct, vt]
+                    yield c
+
+
 ET4 = [F(0), F(1, 3), F(1, 2), F(2)]
 ET3 = [F(0), F(1, 2), F(2)]
 EPQ = PQ + [[1000, 1000000]]
@@ -342,6 +418,23 @@ def spaces(tier, seed):
         "; 3 control streams (none / extending pedal / other controller + never lifted pedal); every (ppq,mpq) of "
         "{(480,500000),(96,600000),(7,2000000),(1000,1000000)}" + (" + {(480,451128),(384,500000)}" if thorough else "") +
         "; with and without note_on_tick/note_off_tick keys; thresholds {0,64,127}"))
+    blk_txt = "" if thorough else "; quick: diagonal block %d of %d of the product" % (seed % TYPE_BLOCKS, TYPE_BLOCKS)
+    sp.append(Space(
+        "numeric-types", (lambda: type_cases(tier, seed)), True,
+        "numeric representation of the note times handed to PerformedPart: every scheme of {all note_on/note_off Python "
+        "float, Python int, np.int64, np.int32, np.float64, np.float32; onsets int + releases float; onsets float + releases "
+        "int; notes alternately int / float (both orders, 2 notes)} x every list of 1-2 notes (pitch patterns 60 / 60,60 / "
+        "60,61, on<=off) whose times the types hold exactly (integer-typed fields over {0,1,2}; the float fields of the two "
+        "onset/release schemes over {0,.5,1,1.5,2}; np.float64/np.float32 over {0,.5,1,2}; Python float over {0,1,2}) x <=2 "
+        "control events at distinct increasing times from {.5,1,1.5,2.5}, cc64 values {0,64,127}; control-time type "
+        "(float, np.float64, np.float32, Python int / np.int64 on integral times and float / np.float64 on the others) and "
+        "pedal-value type (int, np.int64, float) cycled over their 15 combinations; thresholds {0,64,127} on a fresh part + "
+        "up/down assignment walk; ppq/mpq 480/500000, no tick keys" + blk_txt))
+    sp.append(Space(
+        "numeric-type-triples", (lambda: type_triple_cases(tier, seed)), True,
+        "every triple (note-type scheme of 10, control-time type of 5, pedal-value type of 3) as in numeric-types x a core "
+        "of 15 parts (1 note: the 6 intervals of {0,1,2}; 2 notes of one pitch: ordered pairs of {(0,1),(1,2),(0,2)}) x <=2 "
+        "pedal events values {0,127} at increasing times from {.5,1,2,2.5}; thresholds {0,64,127} + up/down walk" + blk_txt))
     sp.append(Space(
         "note-array-edits", edit_cases(tier), True,
         "edit-then-query-again sequences on ONE performed part: note_array() on the fresh part, then after every "
@@ -382,8 +475,54 @@ def close(a, b):
     return abs(a - b) <= TOL * max(1.0, abs(b))
 
 
-def build_part(notes, ctrl, thr, pq, ticks):
+def typed(tname, x):
+    """the exact value x (a Fraction) as an object of the named numeric type; the integer types are only
+    asked for integral x by the note enumerators; for control times "int"/"np.int64" mean that type on
+    integral times and float / np.float64 on the others (stated in the bounds)"""
+    import numpy as np
+
+    x = F(x)
+    if tname == "float":
+        return float(x)
+    if tname in ("int", "np.int64", "np.int32"):
+        if x.denominator != 1:
+            return float(x) if tname == "int" else np.float64(float(x))
+        return int(x) if tname == "int" else getattr(np, tname[3:])(int(x))
+    v = getattr(np, tname[3:])(float(x))
+    if F(float(v)) != x:
+        raise ValueError("%s cannot hold %s exactly" % (tname, x))
+    return v
+
+
+def note_types(scheme, i):
+    """(type of note_on, type of note_off) of note i under a note-type scheme"""
+    if scheme in NT_HOMOG:
+        return scheme, scheme
+    if scheme == "on-int/off-float":
+        return "int", "float"
+    if scheme == "on-float/off-int":
+        return "float", "int"
+    if scheme == "even-int/odd-float":
+        return ("int", "int") if i % 2 == 0 else ("float", "float")
+    if scheme == "even-float/odd-int":
+        return ("float", "float") if i % 2 == 0 else ("int", "int")
+    raise ValueError(scheme)
+
+
+def build_part(notes, ctrl, thr, pq, ticks, types=None):
     from partitura.performance import PerformedPart
+
+    if types is not None:
+        ppq, mpq = pq
+        scheme, ct, vt = types
+        nd = []
+        for i, (p, ch, on, off) in enumerate(notes):
+            ton, toff = note_types(scheme, i)
+            nd.append(dict(id="n%d" % i, midi_pitch=p, note_on=typed(ton, on), note_off=typed(toff, off), velocity=VEL[i % 3],
+                           channel=ch, track=0))
+        cd = [dict(type="sustain_pedal" if num == 64 else "soft_pedal", number=num, time=typed(ct, t), value=typed(vt, v),
+                   track=0, channel=0) for num, t, v in ctrl]
+        return PerformedPart(nd, id="P", controls=cd, sustain_pedal_threshold=thr, ppq=ppq, mpq=mpq)
 
     ppq, mpq = pq
     nd = []
@@ -530,6 +669,7 @@ def eval_pedal(case):
     thr_list = case.get("thr", T5)
     pq = case["pq"]
     ticks = case["ticks"]
+    types = case.get("types")
     res = CaseResult(states=0, transitions=0, traces=0)
     mnotes = [(p, on, off) for p, ch, on, off in notes]
     refs = {}
@@ -539,7 +679,7 @@ def eval_pedal(case):
     for thr in thr_list:
         refs[thr] = M.ref_sound(mnotes, ped, thr)
         ctx = "fresh part, threshold %d" % thr
-        ok, pp = guarded(res, "construction-never-fails", build_part, notes, ctrl, thr, pq, ticks)
+        ok, pp = guarded(res, "construction-never-fails", build_part, notes, ctrl, thr, pq, ticks, types)
         res.transitions += 1
         res.states += 1
         res.traces += 1
@@ -563,7 +703,7 @@ def eval_pedal(case):
     # assignment walk on one part
     if fresh and len(fresh) == len(thr_list):
         start = thr_list[(len(notes) + len(ctrl)) % len(thr_list)]
-        ok, pp = guarded(res, "construction-never-fails", build_part, notes, ctrl, start, pq, ticks)
+        ok, pp = guarded(res, "construction-never-fails", build_part, notes, ctrl, start, pq, ticks, types)
         res.transitions += 1
         if ok:
             hist = [start]
@@ -588,6 +728,8 @@ def eval_pedal(case):
                 res.transitions += check_note_array(res, pp, notes, pq, "after walk, threshold %d" % hist[-1], rebuild=False)
     res.nontrivial = bool(notes) and bool(ped)
     res.outcome = "n%d ext=%s" % (len(notes), ",".join(exts))
+    if types is not None:
+        res.outcome = "types " + res.outcome
     return res
 
 
